@@ -18,7 +18,7 @@ RULE = ('case 0: every file under recipes/ loaded, default_*/dynamic_* files re-
         'x (model scopes + 4 fixed), byte-identical quantize() output with the same statistics; QuantizationResult.save '
         'file re-loaded.  distinct by exported recipe JSON; non-trivial iff the recipe has >=2 rules or a rule that '
         'is not the plain ".*"/"*" form')
-ASSUMPTIONS = ['skip_checks / BLOCKWISE rules excluded', 'the advanced-usage sample must load but need not re-export verbatim']
+ASSUMPTIONS = ['BLOCKWISE rules excluded; skip_checks rules are included for the round trip (their quantize() outcome only has to be the same on both sides)', 'the advanced-usage sample must load but need not re-export verbatim']
 
 
 def plan(tier):
@@ -58,8 +58,13 @@ def build_recipe(rng, qt, src):
     rx, form = recipes.regex_family(rng, names, safe_only=False)
     r = rng.random()
     sel = '*' if r < 0.4 else 'INPUT' if r < 0.45 else 'OUTPUT' if r < 0.5 else str(rng.choice(ops))
-    name = str(rng.choice(recipes.GOOD + ['default_none', 'noq_with_cfg', 'bad_drq16']))
-    if name == 'default_none':
+    name = str(rng.choice(recipes.GOOD + ['default_none', 'noq_with_cfg', 'bad_drq16', 'skip_checks']))
+    if name == 'skip_checks':
+      # forcibly accepted configs (advanced-user flag): must survive the round trip like any other rule
+      base_cfg = recipes.CFGS[str(rng.choice(['drq8_tw', 'wo8s_tw', 'srq8a_tw', 'bad_drq16']))][1]
+      import dataclasses
+      alg, cfg = recipes.MINMAX, dataclasses.replace(base_cfg, skip_checks=True)
+    elif name == 'default_none':
       alg, cfg = recipes.MINMAX, None
     elif name == 'noq_with_cfg':
       alg, cfg = recipes.NOQ, recipes.CFGS[str(rng.choice(['wo8a_cw', 'srq8a_cw', 'drq8_cw']))][1]
